@@ -2,7 +2,7 @@
 C08 — Service: each request gets exactly one outcome; contexts follow their schedule.
 Headline theorems about the model `Irismod.Service` (every state, every operation).
 -/
-import Irismod.Proofs.ServiceOutcome
+import Irismod.Proofs.ServiceQueue
 import Irismod.Spec.C08
 
 namespace Irismod.Props.C08
@@ -248,88 +248,65 @@ theorem callback_once_per_completion (s : State) (rc : Ctx) (id : CtxId) :
   unfold completeBatch callback
   split <;> simp
 
-/-! ### the two schedule defects of the code, by witness -/
-
-/-- the full statement "no batch beyond the total": every batch the new-batch handler issues for a
-repeated context with a non-negative total stays within it -/
-def NoBatchBeyondTotal : Prop :=
-  ∀ (s : State) (id : CtxId), (getCtx s id).repeated = true → 0 ≤ (getCtx s id).total →
-    (getCtx (newBatch s id) id).batchCounter ≤ max (getCtx s id).batchCounter (getCtx s id).total.toNat
+/-! ### queue entries are always consumed; no batch beyond the total -/
 
 def w5ctx : Ctx :=
   { svc := "s1", providers := ["A0"], consumer := "A5", cap := 100, timeout := 2, repeated := true, freq := 2,
-    total := 1, batchCounter := 1, batchReqCount := 1, batchRespCount := 0, batchState := .completed, state := .running }
+    total := 3, batchCounter := 1, batchReqCount := 1, batchRespCount := 0, batchState := .completed, state := .running }
 def w5bind : Binding :=
   { owner := "A3", deposit := 100, pricing := { denom := "stake", amount := 10 }, qos := 2, available := true, disabledTime := 0 }
-/-- the state right after `StartRequestContext` of a paused context that has used up its total -/
+/-- an example state: a running repeated context waiting in the new-batch queue (used for non-vacuity) -/
 def w5 : State :=
   { height := 20, ctxs := [("c", w5ctx)], binds := [(("s1", "A0"), w5bind)], bank := { bal := [(("A5", "stake"), 1000)] },
     newQ := [(20, "c")], newH := [("c", 20)] }
 
-/-- F-svc-5: it fails — `StartRequestContext` queues a batch without looking at the total -/
-theorem no_batch_beyond_total_fails : ¬ NoBatchBeyondTotal := by
-  intro h
-  have := h w5 "c" (by decide) (by decide)
-  revert this
-  decide
+/-- **every due new-batch entry is processed**: whatever the handler decides (batch issued, batch skipped,
+context paused for lack of funds or of an exchange rate, context not running) its queue entry is gone afterwards -/
+theorem due_entry_processed (s : State) (id : CtxId) : (s.height, id) ∉ (newBatch s id).newQ :=
+  Irismod.Proofs.Service.due_entry_processed s id
 
-/-- the only way a paused context gets queued: `keeperStart` never compares counter and total -/
-theorem start_queues_regardless_of_total (s s' : State) (id : CtxId) (consumer : Addr) (rc : Ctx)
-    (hg : AMap.get? s.ctxs id = some rc) (hm : rc.moduleName = "") (hp : rc.state = .paused)
-    (hq : AMap.contains s.expH id = false ∧ AMap.contains s.newH id = false)
-    (h : keeperStart s id consumer = .ok s') : (s.height, id) ∈ s'.newQ := by
-  unfold keeperStart at h
-  rw [hg] at h
-  simp only [moduleAuth, hm, ne_eq, not_true_eq_false, if_false] at h
-  rw [if_neg (by rw [hp]; decide)] at h
-  rw [if_pos (by simp [hq.1, hq.2])] at h
-  cases h
-  simp only [addNew, qInsert, setCtx]
-  by_cases hc : (s.height, id) ∈ s.newQ
-  · simp [hc]
-  · simp [hc]
+/-- … and the whole new-batch phase of a block leaves no entry of the block's height behind and adds none -/
+theorem new_phase_leaves_no_due_entry (s : State) (e : Int × CtxId) (h : e ∈ (newPhase s).newQ) :
+    e ∈ s.newQ ∧ e.1 ≠ s.height :=
+  newPhase_newQ s e h
 
-/-- the full statement "every due queue entry is processed": after the new-batch handler ran for
-`id`, no entry of the current height is left for it -/
-def DueEntryProcessed : Prop :=
-  ∀ (s : State) (id : CtxId), (s.height, id) ∉ (newBatch s id).newQ
+/-- histories that do not modify the settings of a context (the property's "unmodified") -/
+def UnmodifiedHistory (ops : List Op) : Prop := ∀ op ∈ ops, opUnmodified op
 
-def w3bind : Binding :=
-  { owner := "A3", deposit := 100, pricing := { denom := "dbb", amount := 10 }, qos := 2, available := true, disabledTime := 0 }
-/-- a running context whose only provider is priced in a denom without exchange rate -/
-def w3 : State :=
-  { height := 20, ctxs := [("c", { w5ctx with batchCounter := 0, total := 3 })], binds := [(("s1", "A0"), w3bind)],
-    newQ := [(20, "c")], newH := [("c", 20)] }
+theorem below_total_apply {s : State} {op : Op} (hs : BelowTotal s) (hu : opUnmodified op) : BelowTotal (apply s op) := by
+  unfold apply step
+  have h0 : BelowTotal { s with cb := [] } := hs.of_same rfl rfl
+  cases h : stepCore { s with cb := [] } op with
+  | ok s' => exact BelowTotal_stepCore h0 hu h
+  | error e => exact h0
 
-/-- F-svc-3: it fails — without an exchange rate the handler returns before deleting the entry -/
-theorem due_entry_processed_fails : ¬ DueEntryProcessed := by
-  intro h
-  have := h w3 "c"
-  revert this
-  decide
+/-- over every history without settings updates, a context waits in the new-batch queue only while it has
+issued fewer batches than its total (creation, pause / start / kill, answers, any number of blocks) -/
+theorem below_total_run : ∀ (ops : List Op) (s : State), BelowTotal s → UnmodifiedHistory ops → BelowTotal (run s ops)
+  | [], _, hs, _ => hs
+  | op :: rest, s, hs, hu =>
+    below_total_run rest (apply s op) (below_total_apply hs (hu op (List.mem_cons_self ..)))
+      (fun o ho => hu o (List.mem_cons_of_mem _ ho))
 
-/-- … and only then: whenever `FilterServiceProviders` succeeds (or the context is not running) the
-entry of the current height is gone -/
-theorem due_entry_processed_partial (s : State) (id : CtxId)
-    (hok : (getCtx s id).state = .running →
-      (filterProviders s (getCtx s id) (getCtx s id).providers [] []).isSome = true) :
-    (s.height, id) ∉ (newBatch s id).newQ := by
-  have hdel : ∀ t : State, (s.height, id) ∉ (delNew t id s.height).newQ := by
-    intro t hm
-    simp [delNew] at hm
-  unfold newBatch
-  split
-  · rename_i hr
-    have := hok hr
-    split
-    · rename_i hn; rw [hn] at this; cases this
-    · split
-      · unfold chargeAndStart
-        split
-        · exact hdel _
-        · exact hdel _
-      · exact hdel _
-  · exact hdel _
+/-- **no batch beyond the total**: in every state reachable from an empty scheduler without settings updates,
+the new-batch handler leaves a repeated context with a positive total at or below that total -/
+theorem no_batch_beyond_total (s0 : State) (h0 : s0.newH = []) (ops : List Op) (hu : UnmodifiedHistory ops)
+    (id : CtxId) (hq : AMap.contains (run s0 ops).newH id = true) (c : Ctx)
+    (hg : AMap.get? (run s0 ops).ctxs id = some c) (hr : c.repeated = true) (ht : 1 ≤ c.total) :
+    ((getCtx (newBatch (run s0 ops) id) id).batchCounter : Int) ≤ c.total := by
+  have hb : BelowTotal s0 := by
+    intro id' c' hn; rw [h0] at hn; simp [AMap.contains, AMap.get?] at hn
+  exact newBatch_within_total (below_total_run ops s0 hb hu) id hq c hg hr ht
+
+/-- a paused context that has used up its total cannot be started again -/
+theorem start_respects_total (s : State) (id : CtxId) (consumer : Addr) (rc : Ctx)
+    (hg : AMap.get? s.ctxs id = some rc) (hm : rc.moduleName = "") (hp : rc.state = .paused) (hr : rc.repeated = true)
+    (ht : 0 ≤ rc.total ∧ rc.total ≤ (rc.batchCounter : Int)) : ∃ e, keeperStart s id consumer = .error e := by
+  unfold keeperStart
+  rw [hg]
+  simp only [moduleAuth, hm, ne_eq, not_true_eq_false, if_false]
+  rw [if_neg (by rw [hp]; decide), if_pos ⟨hr, ht⟩]
+  exact ⟨_, rfl⟩
 
 /-! ### the outcome automaton over histories -/
 
